@@ -67,6 +67,8 @@ var c13Fragments = []fragment{
 	{"`", false, "illegal character"}, {`\`, false, "illegal character"},
 	{`1 & 2`, false, "lone &"}, {`1 | 2`, false, "lone |"}, {`1 ~ 2`, false, "lone ~"},
 	{`q # w`, false, "illegal character"},
+	{"\v", false, "illegal character (vertical tab)"}, {"q \f w", false, "illegal character (form feed)"}, {"\x01", false, "illegal character (control)"},
+	{"\x1b", false, "illegal character (escape)"}, {"\x7f", false, "illegal character (delete)"}, {"q \x08 w", false, "illegal character (backspace)"},
 	{`local q;`, true, "local outside a function"},
 	{`switch (q) { default { w = 1; } default { w = 2; } }`, true, "second default"},
 	{`if (q) { w = 1;`, true, "unterminated block"},
@@ -118,6 +120,9 @@ var c13Contexts = []ctxTmpl{
 	{"foreach e1 in c3 { ", " }", true, true, false, false},
 	{"foreach i1, e1 in 1..3 { ", " v3 = 3; }", true, true, false, false},
 	{"function fn1(p1) { ", " }", true, true, true, false},
+	// functions named like a stock function or one the host has registered
+	{"function len(p1) { ", " }", true, true, true, false},
+	{"function trace(p1) { v1 = p1; ", " }", true, true, true, false},
 	{"switch (c1) { case 1 { ", " } }", true, true, false, false},
 	{"switch (c1) { case 1, 2 { v1 = 1; } default { ", " } }", true, true, false, false},
 	// the hole comes after a return in the same block (code that can never run)
